@@ -4,9 +4,13 @@ package vrt
 
 import (
 	"fmt"
+	"os"
 	"sort"
 	"time"
 )
+
+var debugCache = os.Getenv("VRT_DEBUG_CACHE") != ""
+var debugIns = map[uint64]string{}
 
 // Budget bounds the deviations from the default execution: P preemptions,
 // S non-first select cases, T timing deviations (early timer firings / KTime
@@ -257,9 +261,15 @@ func (e *Explorer) explore(prefix []int, used Budget) bool {
 			}
 			if hit {
 				e.Stats.Pruned++
+				if debugCache {
+					fmt.Fprintf(os.Stderr, "PRUNE exec=%v at point %d/%d kind=%s fp=%x rem=%s inserted by %s\n", choicesOf(&o), i, len(o.Points), p.Kind, p.FP, rem, debugIns[p.FP])
+				}
 				break
 			}
 			e.seen[p.FP] = append(e.seen[p.FP], rem)
+			if debugCache {
+				debugIns[p.FP] = fmt.Sprintf("%v@%d rem=%s", choicesOf(&o), i, rem)
+			}
 		} else {
 			e.seen[p.FP] = nil
 		}
